@@ -160,6 +160,9 @@ TWrite ==
                \E c \in 1..NCols : SelectSeq([i \in 1..Len(pages) |-> IF pages[i].col = c THEN pages[i].nrecs ELSE 0], LAMBDA x : x > 0)
                                      # ChainSplit(Len(recs), maxPage)
             THEN PrintT(<<"DRIFT", caseId, l, "PageSplitDiffersFromLayoutModel">>) ELSE TRUE)
+       \* Layout.tla: every page is two sink writes (header, body)
+       /\ (IF Ev.problems = <<>> /\ Ev.nsink # 2 * Len(pages)
+            THEN PrintT(<<"DRIFT", caseId, l, "SinkWritesPerPageDifferFromLayoutModel">>) ELSE TRUE)
   /\ UNCHANGED <<caseId, schema, cols, maxPage, codecN, faultK, rowsTab>>
 
 \* ---------------------------------------------------------------- Close
